@@ -123,8 +123,18 @@ def run(ctx):
             ctx.fail('callables decorated with the enabled global `profile` object are not profiled exactly',
                      {'finding_class': None, 'global_case': c, '[executions, reported hits] where they differ': diff, 'enable_count_after': r['count_after']})
     ctx.coverage['global_decorator_cases'] = len(globs)
+    # decorated callables used in a second thread while the thread that started it is inside a decorated callable itself
+    thr = [{'n': 3, 'calls': 2}, {'n': 1, 'calls': 4}]
+    for c, r in zip(thr, run_worker(build, 'wrap_worker.py', {'threads': thr})['threads']):
+        if 'error' in r:
+            ctx.broken.append(('harness', r['error'][-1500:]))
+        elif r['executions'] != r['reported'] or r['count_after'] != 0:
+            diff = {k: [r['executions'].get(k, 0), r['reported'].get(k, 0)] for k in set(r['executions']) | set(r['reported']) if r['executions'].get(k, 0) != r['reported'].get(k, 0)}
+            ctx.fail('decorated callables used in a worker thread (while the starting thread is inside a decorated callable) are not profiled exactly',
+                     {'finding_class': None, 'thread_case': c, '[executions, reported hits] where they differ': diff, 'enable_count_after': r['count_after']})
+    ctx.coverage['thread_cases'] = len(thr)
     ctx.coverage.update({
-        'evaluations': len(towers) + len(copies) + len(globs), 'distinct_nontrivial': len(nontrivial),
+        'evaluations': len(towers) + len(copies) + len(globs) + len(thr), 'distinct_nontrivial': len(nontrivial),
         'rule': 'all 8 property shapes (gaps included), every single-layer kind x {plain, generator, coroutine, async generator} function, callable '
                 'instances, + random towers of depth <= 4 with layers pre-wrapped by the same / other profilers; each used through its natural access '
                 '(call / get / set / delete) undecorated, decorated and decorated twice; non-trivial = at least two layers',
